@@ -42,7 +42,7 @@ fn block_entry_size(pl: usize, dl: usize) -> usize {
     1 + leb128(inner as u64).len() + inner
 }
 
-fn one(sizes: &[(usize, usize)], tag: &str) -> Case {
+fn one(sizes: &[(usize, usize)], tag: &str, warm: bool) -> Case {
     let mut node = Node::new(|b| b, 1);
     let mut h = node.new_conn(0, 1);
     let out = Arc::new(Mutex::new(Vec::new()));
@@ -52,9 +52,23 @@ fn one(sizes: &[(usize, usize)], tag: &str) -> Case {
         .enumerate()
         .map(|(i, (pl, dl))| (vec![i as u8 + 1; *pl], vec![(i as u8).wrapping_mul(7).wrapping_add(3); *dl]))
         .collect();
-    h.on_behaviour_event(ToHandlerEvent::QueueOutgoingMessages(blocks.clone()));
     let waker = noop_waker();
     let mut cx = Context::from_waker(&waker);
+    if warm {
+        // the reply substream is already open and idle when the batch arrives: one tiny reply first
+        h.on_behaviour_event(ToHandlerEvent::QueueOutgoingMessages(vec![(vec![9u8], vec![9u8])]));
+        for _ in 0..20 {
+            match h.poll(&mut cx) {
+                Poll::Ready(ConnectionHandlerEvent::OutboundSubstreamRequest { .. }) => {
+                    handler_set_server_stream(&mut h, Box::new(Sink(out.clone())));
+                }
+                Poll::Ready(_) => {}
+                Poll::Pending => break,
+            }
+        }
+    }
+    let skip = out.lock().unwrap().len();
+    h.on_behaviour_event(ToHandlerEvent::QueueOutgoingMessages(blocks.clone()));
     for _ in 0..200 {
         match h.poll(&mut cx) {
             Poll::Ready(ConnectionHandlerEvent::OutboundSubstreamRequest { .. }) => {
@@ -65,7 +79,7 @@ fn one(sizes: &[(usize, usize)], tag: &str) -> Case {
         }
     }
     // cut the written bytes into frames; per frame: number of blocks, frame length; check the contents
-    let bytes = out.lock().unwrap().clone();
+    let bytes = out.lock().unwrap()[skip..].to_vec();
     let mut frames = Vec::new();
     let mut rest: &[u8] = &bytes;
     let mut next_block = 0usize;
@@ -101,7 +115,7 @@ fn one(sizes: &[(usize, usize)], tag: &str) -> Case {
     Case {
         input: J::L(sizes.iter().map(|(p, d)| J::T(vec![J::us(*p), J::us(*d)])).collect()),
         output: J::L(frames.iter().map(|(n, l)| J::T(vec![J::us(*n), J::us(*l)])).collect()),
-        tags: vec![tag.to_string()],
+        tags: vec![tag.to_string(), if warm { "open_idle_stream".to_string() } else { "fresh_handler".to_string() }],
         nontrivial: sizes.len() > 1,
     }
 }
@@ -127,12 +141,15 @@ pub fn run(seed: u64, n: usize, _tier: &str) {
             let sum: usize = sizes.iter().map(|(p, d)| block_entry_size(*p, *d)).sum();
             if sum > target { let d = sum - target; if sizes[k - 1].1 > d { sizes[k - 1].1 -= d; } }
             if sum < target { sizes[k - 1].1 += target - sum; }
-            one(&sizes, &format!("boundary/k{k}")).print();
+            one(&sizes, &format!("boundary/k{k}"), false).print();
+            one(&sizes, &format!("boundary/k{k}"), true).print();
         }
     }
     // a block larger than the limit, alone and inside a batch
-    one(&[(4, max + 10)], "oversize/alone").print();
-    one(&[(4, 100), (4, max + 10), (4, 100)], "oversize/in_batch").print();
+    for warm in [false, true] {
+        one(&[(4, max + 10)], "oversize/alone", warm).print();
+        one(&[(4, 100), (4, max + 10), (4, 100)], "oversize/in_batch", warm).print();
+    }
     for _ in 0..n {
         let k = 1 + rng.usize(7);
         let sizes: Vec<(usize, usize)> = (0..k)
@@ -148,6 +165,7 @@ pub fn run(seed: u64, n: usize, _tier: &str) {
                 (rng.usize(6), dl)
             })
             .collect();
-        one(&sizes, "random").print();
+        let warm = rng.chance(1, 2);
+        one(&sizes, "random", warm).print();
     }
 }
